@@ -166,6 +166,15 @@ func (*TumblingWindow).getWindowKey
   props C02 C01
   option pure
 
+// every watermark the window receives is acted on: the intervals are checked against it, none is skipped
+func (*TumblingWindow).startEventTime$1
+  props C01 C02
+  modifies *
+  count taken := select@2#0
+  count scans := checkAndTriggerWindows
+  before checkAndTriggerWindows the-check-runs-against-the-watermark-just-received: $selected == 0 && $arg1 == watermarkTime
+  loop 1 invariant every-watermark-received-so-far-was-followed-by-a-check: $scans == $taken
+
 func (*TumblingWindow).sendResult
   props C01 C02
   modifies tw.sentCount, tw.droppedCount
@@ -338,6 +347,14 @@ func (*SlidingWindow).dropLastRow
 func (*SlidingWindow).getWindowKey
   props C02 C08
   option pure
+
+func (*SlidingWindow).startEventTime$1
+  props C08 C02
+  modifies *
+  count taken := select@2#0
+  count scans := checkAndTriggerWindows
+  before checkAndTriggerWindows the-check-runs-against-the-watermark-just-received: $selected == 0 && $arg1 == watermarkTime
+  loop 1 invariant every-watermark-received-so-far-was-followed-by-a-check: $scans == $taken
 
 func (*SlidingWindow).sendResult
   props C08 C02
@@ -670,10 +687,18 @@ func (*GlobalWindow).shouldFire
   atreturn the-compiled-predicate-is-asked-once-and-its-answer-is-the-decision: $asked == 1 && result == $verdict
   loop 1 invariant $asked == 0 && forall(j, 0, $i, trigAggLive(gw, gs, j) ==> dom(env, gw.triggerSpecs[j].placeholder))
 
+// the fired row carries the group's key columns as they are, every SELECT aggregate's own value exactly as the aggregate
+// reports it, and the window bounds
 func (*GlobalWindow).buildResult
   props C17 C04 C12
   held gw.mu
   ensures result-is-a-new-row: fresh(result)
+  observe val := Result
+  ensures the-key-columns-are-the-groups-own: forallv(k, "", dom(gs.keyValues, k) && forall(j, 0, len(gw.outputSpecs), gw.outputSpecs[j].alias != k) && k != "window_start" && k != "window_end" ==> dom(result, k) && result[k] == gs.keyValues[k])
+  ensures the-window-bounds-are-the-groups-own: result["window_start"] == boxof(gs.windowStart, time.Time) && result["window_end"] == boxof(gs.windowEnd, time.Time)
+  loop 1 invariant fresh(result) && forallv(k, "", $visited[k] && dom(gs.keyValues, k) ==> dom(result, k) && result[k] == gs.keyValues[k])
+  loop 2 invariant fresh(result) && forallv(k, "", dom(gs.keyValues, k) && forall(j, 0, len(gw.outputSpecs), gw.outputSpecs[j].alias != k) ==> dom(result, k) && result[k] == gs.keyValues[k])
+  loop 2 invariant the-value-stored-for-an-aggregate-is-what-it-just-reported: $i > 0 && gs.outputAggs[$s[$i - 1].alias] != nil ==> result[$s[$i - 1].alias] == $val
 
 extern (*GlobalWindow).deliver
   props C17 C04 C12
@@ -833,6 +858,15 @@ func (*SessionWindow).sendResult
   props C10 C02 C04
   modifies sw.sentCount, sw.droppedCount
   before After under-the-blocking-policy-a-batch-waits-the-configured-time-for-room-five-seconds-when-none-is-configured: $arg0 == ite(sw.config.PerformanceConfig.OverflowConfig.BlockTimeout <= 0, 5000000000, sw.config.PerformanceConfig.OverflowConfig.BlockTimeout)
+
+// every watermark the session window receives is acted on: the open sessions are scanned against it, none is skipped
+func (*SessionWindow).startEventTime$1
+  props C10 C02 C04
+  modifies *
+  count taken := select@2#0
+  count scans := checkAndTriggerSessions
+  before checkAndTriggerSessions the-scan-runs-against-the-watermark-just-received: $selected == 0 && $arg1 == watermarkTime
+  loop 1 invariant every-watermark-received-so-far-was-followed-by-a-scan: $scans == $taken
 
 func (*SessionWindow).checkAndTriggerSessions
   props C10 C02 C04
